@@ -512,7 +512,7 @@ class ExprMixin:
         h = self.u_hook('construct', t, args, n)
         if h is not None: return h
         if t.kind == 'opaque':
-            args2 = [a for a in args if a.get('kind') != 'CXXDefaultArgExpr']
+            args2 = self.flatten_init([a for a in args if a.get('kind') != 'CXXDefaultArgExpr'])
             self.rules['opaque-construction'] += 1
             suffix = []; atxt = []; ptxt = []
             for i, a in enumerate(args2):
@@ -533,6 +533,23 @@ class ExprMixin:
             self.fninfo.setdefault(cn, {'qname': t.c + '::ctor', 'stub': True})
             return '%s(%s)' % (cn, ', '.join(atxt))
         raise Unsupported('construction of %s (%s) at %s' % (t.c, t.kind, self.where(n)))
+
+    def flatten_init(self, args):
+        """arguments of an opaque construction: initializer lists and std::pair temporaries are flattened
+        to their leaf expressions (the stub sees the values, not the library wrappers)"""
+        out = []
+        for a in args:
+            c = self.skip(a)
+            if c.get('kind') == 'CXXStdInitializerListExpr':
+                lst = self.skip(c['inner'][0])
+                out += self.flatten_init(lst.get('inner', []))
+            elif c.get('kind') in ('InitListExpr',) :
+                out += self.flatten_init(c.get('inner', []))
+            elif c.get('kind') in ('CXXConstructExpr', 'CXXTemporaryObjectExpr') and re.match(r'(const )?std::pair<', (c.get('type', {}).get('desugaredQualType') or c.get('type', {}).get('qualType') or '')):
+                out += self.flatten_init(c.get('inner', []))
+            else:
+                out.append(a)
+        return out
 
     def convert_to(self, t, arg):
         return self.expr(arg)
@@ -559,7 +576,17 @@ class ExprMixin:
             fields = [f for f in r.get('inner', []) if f.get('kind') == 'FieldDecl']
             if len(args) <= len(fields) and not ctors:
                 self.rules['aggregate-init'] += 1
-                return '((%s){%s})' % (t.c, ', '.join(self.expr(a) for a in args))
+                vals = []
+                for i, f in enumerate(fields):
+                    a = args[i] if i < len(args) else None
+                    if a is not None and a.get('kind') != 'CXXDefaultInitExpr' and a.get('kind') != 'ImplicitValueInitExpr':
+                        vals.append(self.expr(a, rvalue=True)); continue
+                    fi = [c for c in f.get('inner', []) if c.get('kind') not in ('FullComment',)]
+                    ft = self.tyq(f['type'])
+                    if fi: vals.append(self.expr(fi[0], rvalue=True))
+                    elif ft.kind in ('scalar', 'ptr'): vals.append('0')
+                    else: vals.append(self.construct(ft, [], f))
+                return '((%s){%s})' % (t.c, ', '.join(vals))
             raise Unsupported('no constructor of %s matches %r at %s' % (t.c, ctor_type, self.where(n)))
         if cand.get('explicitlyDefaulted') and not self.params_of(cand):
             return self.want_default_ctor(r)
